@@ -105,7 +105,7 @@ pub fn case_line(case: &StreamCase, samples: &[i32]) -> String {
     let mut s = String::with_capacity(samples.len() * 8 + 200);
     let b = |x: bool| if x { 1 } else { 0 };
     s.push_str(&format!(
-        "{} {} {} {} {} {} {} {} {} {} {} {} {} {} {} {} {} {} {} {}",
+        "{} {} {} {} {} {} {} {} {} {} {} {} {} {} {} {} {} {} {} {} {}",
         c.block_size,
         b(c.multithread),
         c.workers.unwrap_or(0),
@@ -126,6 +126,7 @@ pub fn case_line(case: &StreamCase, samples: &[i32]) -> String {
         case.inp.bps,
         case.inp.rate,
         samples.len(),
+        c.cfg_block.unwrap_or(0),
     ));
     for x in samples {
         s.push(' ');
